@@ -136,19 +136,22 @@ the witness must behave as documented).
 * `accessFalls`   (F-C03-4): `TryAccess` on a value without `.` access jumps instead of raising;
 * `rangeSlices`   (F-C03-5): `SliceFrom`/`SliceTo` on a bounded range yield the sub-range;
 * `subjectCopied` (F-C03-2, /repo 65de4a1): `compile_match` copies a subject that lives in a
-  local's register into a fresh temporary, so patterns destructure a private copy. -/
+  local's register into a fresh temporary, so patterns destructure a private copy;
+* `typedFirst`    (F-C03-8, requests/C03-fix-8.diff): a type-hinted binding (`x: T`, `{k: T}`,
+  `{k as x: T}`) is checked in a temporary and written only when the check succeeds. -/
 structure Cfg where
   sizeNullJumps : Bool
   nestedLast : Bool
   accessFalls : Bool
   rangeSlices : Bool
   subjectCopied : Bool
+  typedFirst : Bool
   deriving DecidableEq, Repr, Inhabited
 
 /-- the tree the findings were recorded on -/
-def Cfg.recorded : Cfg := ⟨false, false, false, false, false⟩
+def Cfg.recorded : Cfg := ⟨false, false, false, false, false, false⟩
 /-- every repair applied -/
-def Cfg.repaired : Cfg := ⟨true, true, true, true, true⟩
+def Cfg.repaired : Cfg := ⟨true, true, true, true, true, true⟩
 
 /-! ### the VM operations a match uses, on every kind of value -/
 
@@ -309,7 +312,7 @@ def mEnts (C : Cfg) : List Ent → Src → Env → R
     | .ok none => .fail ρ
     | .ok (some v) =>
       let ρ1 := match e.bind with | some x => ρ.set x v | none => ρ
-      if tyFail e.ty v then .fail ρ1 else mEnts C es s ρ1
+      if tyFail e.ty v then .fail (if C.typedFirst then ρ else ρ1) else mEnts C es s ρ1
 
 def restCount (rest : Option (Option Name)) : Nat := if rest.isSome then 1 else 0
 
@@ -327,7 +330,8 @@ def mPat (F : FloatOps) (C : Cfg) (la : Bool) : Pat → Bool → Acc → Env →
   | .id x ty, isLast, a, ρ =>
     match fetch ρ a with
     | .error e => .err e
-    | .ok v => if tyFail ty v then .fail (ρ.set x v) else fin la isLast (ρ.set x v)
+    | .ok v =>
+      if tyFail ty v then .fail (if C.typedFirst then ρ else ρ.set x v) else fin la isLast (ρ.set x v)
   | .wild ty, isLast, a, ρ =>
     match ty with
     | none => fin la isLast ρ
